@@ -7,6 +7,7 @@
 package sidxsim
 
 import (
+	"github.com/apache/skywalking-banyandb/banyand/internal/verif/simknobs"
 	"context"
 	"fmt"
 	"path/filepath"
@@ -35,7 +36,12 @@ func (e entry) String() string { return fmt.Sprintf("(s%d,k%d,%s)", e.sid, e.key
 // Run is the scenario body; oracle names the oracle in violation classes.
 func Run(oracle string, checkOrder bool) func(e *simcore.Env, tp *simcore.Tape) {
 	return func(e *simcore.Env, tp *simcore.Tape) {
-		synctest.Test(e.T, func(*testing.T) { run(e, tp, oracle, checkOrder) })
+		synctest.Test(e.T, func(*testing.T) {
+			knobDesc, knobRestore := simknobs.Draw(tp, "sidx")
+			defer knobRestore()
+			e.Event("%s", knobDesc)
+			run(e, tp, oracle, checkOrder)
+		})
 	}
 }
 
@@ -228,6 +234,10 @@ func run(e *simcore.Env, tp *simcore.Tape, oracle string, checkOrder bool) {
 				mode := ":unbatched"
 				if req.MaxBatchSize > 0 {
 					mode = ":batched" // MaxBatchSize > 0: results are produced scan batch by scan batch
+				} else if *sidx.VerifKnobs()["maxBlockLength"] < 64 {
+					// blocks of a few entries (size knob shrunk): one query touches more blocks than one scan batch holds
+					// even without MaxBatchSize, the situation of a large index at the shipped block size
+					mode = ":unbatched:tiny-blocks"
 				}
 				if e.Known(oracle, "sidx:"+cls+":"+name+mode) {
 					continue
